@@ -5,8 +5,8 @@ W = "parsec/data_dist/matrix/redistribute/redistribute_wrapper.c"
 WI = "parsec/data_dist/matrix/redistribute/redistribute_internal.h"
 J1 = "parsec/data_dist/matrix/redistribute/redistribute.jdf"
 J2 = "parsec/data_dist/matrix/redistribute/redistribute_reshuffle.jdf"
-OUTSIDE = ["C21 obligation O2 (reshuffle JDF: execution spaces of Send/Receive cover each target tile of the window exactly once, Receive writes exactly the "
-           "in-window elements) and the general path redistribute.jdf: NOT covered by the o1_* queries of this file (JDF-based queries belong to another part)",
+OUTSIDE = ["C21 obligation O2, tile level (execution spaces of Send/Receive cover each target tile of the window exactly once) and the general path "
+           "redistribute.jdf: not covered (the o2_receive_* queries decide the element level of the Receive body only; the Send body is not encoded)",
            "that the taskpools actually copy the window (only the arguments handed to the generated constructors, num_col, NT and the arena types are checked here)",
            "tabular source/target (batch width computed with ceil() on doubles: floats are not given to the solver); parsec_redistribute_dtd",
            "arguments beyond |v| <= 2^20 / more than 1000 tile rows or columns: the bound checks add displacement and size in int; the solver shows that with values "
@@ -53,6 +53,20 @@ def queries(ctx):
                 o1("t_%d_%d_%d_%d_k%d%d" % (a, b, c, d, ky, kt), a, b, c, d, ky=ky, kt=kt, ncy=1 + k % 4, nct=1 + (k * 3) % 5, sty=k % 2, stt=(k // 2) % 2)
         for q in qs[t0:]:
             q.tiers = ("thorough",)
+    # ---- O2 (element level): the generated Receive body of redistribute_reshuffle.jdf copies exactly the in-window elements
+    g2 = ptg.gen("repo:" + J2, "redistribute_reshuffle")
+    for mb in (2, 3):
+        for nb in (2, 3):
+            for (stt, sty) in ((0, 0), (1, 0), (0, 1), (1, 1)):
+                quick = (stt, sty) == (0, 0) or (mb, nb) == (2, 3)
+                qs.append(Q("o2_receive_mb%d_nb%d_st%d%d" % (mb, nb, stt, sty), ["o2_receive.c"], defs=["MB=%d" % mb, "NB=%d" % nb, "STT=%d" % stt, "STY=%d" % sty],
+                            unwind=15, unwindset=["vp_memcpy.0:15"], units=[J2, WI] + ptg.UNITS, gen=g2, cflags=ptg.CFLAGS, object_bits=12, engine="G", timeout=1200,
+                            tiers=("quick", "thorough") if quick else ("thorough",),
+                            info={"obligation": "O2 element level", "enumerated": {"mb": mb, "nb": nb, "target storage": stt, "source storage": sty, "tile grid": "3x2"},
+                                  "symbolic": ["window position (tile aligned) and size", "Receive instance (m_T, n_T)", "rank_Y == rank_T"],
+                                  "stubs": ["memcpy -> element-wise copy of doubles for the solver (CBMC's built-in model was imprecise here); no runtime service is called by the hook; "
+                                            "hidden globals computed with the JDF's default expressions"],
+                                  "functions": ["hook_of_redistribute_reshuffle_Receive_CPU (generated from the JDF BODY)", "CORE_redistribute_reshuffle_copy"]}))
     return qs
 
 def mutants(ctx):
@@ -68,6 +82,13 @@ def mutants(ctx):
         Mutant("num_cols_min_instead_of_max", WI, "    return (num_col_Y >= num_col_T) ? num_col_Y : num_col_T;", "    return (num_col_Y >= num_col_T) ? num_col_T : num_col_Y;", queries=A),
         Mutant("target_lda_global_rows", W, "int T_LDA = dcT->storage == PARSEC_MATRIX_LAPACK ? dcT->llm : dcT->mb;", "int T_LDA = dcT->storage == PARSEC_MATRIX_LAPACK ? dcT->lm : dcT->mb;", queries=["o1_lapack_target_diff"]),
         Mutant("empty_rows_accepted", W, "    if( size_row < 1 || size_col < 1 ) {", "    if( size_row < 0 || size_col < 1 ) {", queries=A),
+        # O2: single-memcpy fast path taken whenever the tile is complete in ONE dimension
+        Mutant("receive_fast_path_one_dimension_complete", J2, "        && ( m_T != m_T_END )){", "        && ( (mb == descT->mb) || (nb == descT->nb) )){",
+               queries=["o2_receive_mb2_nb2_st00", "o2_receive_mb3_nb2_st00"]),
+        Mutant("receive_last_column_width_uses_mb", J2, "parsec_imin(descT->nb, size_col-(n_T_END-n_T_START)*descT->nb): descT->nb;",
+               "parsec_imin(descT->nb, size_col-(n_T_END-n_T_START)*descT->mb): descT->nb;", queries=["o2_receive_mb2_nb3_st00", "o2_receive_mb3_nb2_st00"]),
+        Mutant("receive_lapack_target_lda_is_mb", J2, "const int T_lda = ( descT->storage == PARSEC_MATRIX_LAPACK )? descT->llm : descT->mb;",
+               "const int T_lda = descT->mb;", queries=["o2_receive_mb2_nb3_st10"]),
         Mutant("negative_target_disp_accepted", W, "        disi_T < 0 || disj_T < 0 ) {", "        disi_T < 0 ) {", queries=A),
     ]
 CLAIMED = True
